@@ -48,6 +48,12 @@ Require Import FinalPart.
 Theorem C01_final_part_is_the_always_part_with_final : forall (A : Type) (h : nat) (P : list (srule A)) (r : srule A), sp A r = Final ->
   forall T : trace A, tsm A h (r :: P) T <-> tsm A h (as_always A r :: P) T.
 Proof. exact final_part_same_stable_models. Qed.
+(* ... likewise the initial part is the always part guarded by &initial, the dynamic part the always part guarded by not &initial *)
+Theorem C01_initial_and_dynamic_parts_are_guarded_always_parts : forall (A : Type) (h : nat) (P : list (srule A)) (r : srule A) (T : trace A),
+  (sp A r = Initial -> (tsm A h (r :: P) T <-> tsm A h (initial_as_always A r :: P) T)) /\
+  (sp A r = Dynamic -> (tsm A h (r :: P) T <-> tsm A h (dynamic_as_always A r :: P) T)).
+Proof. exact parts_same_stable_models. Qed.
+Print Assumptions C01_initial_and_dynamic_parts_are_guarded_always_parts.
 Print Assumptions C01_final_part_is_the_always_part_with_final.
 Print Assumptions C01_core_exact.
 Print Assumptions C01_instance_meaning.
